@@ -1,6 +1,21 @@
 """Per-property metadata used by the runner (levels, explanations)."""
 
 PROPS = {
+    "C07": {
+        "level": "other",
+        "explanation": "bounded path enumeration of the apply body with symbolic hashes (loops unrolled once/twice): on "
+                       "every Ok path the change in key->hash mappings equals the change applied to the refcounts and a "
+                       "hash is listed for deletion iff its decrement reported zero; the two primitives are checked "
+                       "against that contract; the list reaches the delete callback; staging is RAII",
+        "not_decided": "the directory listing at run time",
+    },
+    "C12": {
+        "level": "other",
+        "explanation": "counter confinement by module, path-enumerated balance of the statistics counters against the "
+                       "refcount outcomes (distinct blobs, bytes with the size belonging to the same hash), rebuild on "
+                       "load, provenance of the stored size",
+        "not_decided": "numeric equality over histories",
+    },
     "C18": {
         "level": "other",
         "explanation": "one datum / one hash / one path decided by provenance: the write method feeds its data "
